@@ -4,5 +4,6 @@ CONSTANTS
   Beh = FALSE
   StatusSubs <- SubBoth
   Selections <- SelAll
+  SelStyles <- StyAll
 INVARIANTS C16_SpecUntouched C16_OnlyNamed C16_StatusRule C16_Selected C16_Done
 CHECK_DEADLOCK FALSE
